@@ -3,7 +3,7 @@ from .core import BASE_TRUST, LEAN, Problem
 
 META = {
     "category": "proof",
-    "text": "PARTIAL. Lean 4 proof that the Discard discipline makes the value pool safe (heap + free list + clients: for ALL operation sequences obeying 'discard only what you alone reference, never touch it afterwards', every read returns the value the reader was given; invariant: no address both free and live) with a counter-witness for a premature discard; every value.Discard(x) call site of lib/query and lib/value and every assignment of lib/query that writes through a parser.* value is regenerated from /repo on every run (go/ast + go/types) and checked by `decide` (all sites fresh, not used afterwards, not escaping; the value.To* conversions return value.New* results on every path; no write into a shared syntax tree outside the recorded F8 site). TRUSTED, not proved: the step 'syntactic fact => behaviour of the running program' (callees are not analysed), sync.Pool as a free list. Cross-checked on every run: generated statements over all built-in scalar functions, operators and clauses evaluated twice (plain / WHILE / user-defined function / PREPARE+EXECUTE), syntax trees printed before and after execution, tables / cursor rows / variables read again",
+    "text": "PARTIAL. Lean 4 proof that the Discard discipline makes the value pool safe (heap + free list + clients: for ALL operation sequences obeying 'discard only what you alone reference, never touch it afterwards', every read returns the value the reader was given; invariant: no address both free and live) with a counter-witness for a premature discard; every value.Discard(x) call site of lib/query and lib/value and every assignment of lib/query that writes through a parser.* value is regenerated from /repo on every run (go/ast + go/types) and checked by `decide` (all sites fresh, not used afterwards, not escaping; the value.To* conversions return value.New* results on every path; theorem ast_readonly: NO write into a shared syntax tree; pre-finding F8 was repaired in /repo by commit 02f8662 and stays watched: a new shared write breaks ast_readonly and is reported as astwrite:<file>:<function>:<lhs>, a bad Discard as discard:<file>:<function>:<var>:<reason>). TRUSTED, not proved: the step 'syntactic fact => behaviour of the running program' (callees are not analysed), sync.Pool as a free list. Cross-checked on every run: generated statements over all built-in scalar functions, operators and clauses evaluated twice (plain / WHILE / user-defined function / PREPARE+EXECUTE), syntax trees printed before and after execution, tables / cursor rows / variables read again",
     "design_ref": "DESIGN.md section 5, C14",
     "note": "trusted: Lean kernel (propext, Classical.choice, Quot.sound only), the extractor extract/discardfacts (conservative, syntactic), sync.Pool modelled as a free list, harness generators; no poisoning hook for Discard exists in /repo (H2 of DESIGN.md section 6 not built): a premature recycle is observed only when the recycled object is re-issued and the old reference is read again in the same run",
     "technique": "Lean 4 machine-checked proof over a heap/pool model + facts regenerated from the Go source checked by kernel evaluation + differential self-comparison (evaluate twice / read again) on the real code",
@@ -42,6 +42,7 @@ def parse_astwrites():
 def run(run):
     q = run.tier == "quick"
     run.assumptions += [
+        "F8 (Analyze writing fn.Args[0] through the shared argument slice) is fixed in /repo (02f8662); COUNT(*) OVER (...) statements stay in the corpus of the dynamic cross-check (plain, WHILE, PREPARE/EXECUTE twice, syntax tree printed before/after)",
         "TRUSTED: a Discard site the extractor reports fresh / not used afterwards / not escaping behaves so at run time (value.IsNull, value.To* and the getters Raw/Ternary/String/Format do not keep their argument; functions that receive a value or a syntax tree from the analysed function are not analysed themselves)",
         "TRUSTED: sync.Pool behaves as the free list of Csvq/Model/Pool.lean (Get returns an object that was Put or a new one); objects of different types live in different pools",
         "syntax trees: only assignments (and copy / sort calls) inside lib/query are inspected; a write is 'shared' when its access path from a parser.* value passes a slice/map element or a pointer",
@@ -83,7 +84,8 @@ def run(run):
             run.stream("c14", 40000, seed_offset=k, timeout=1500)
     # a syntax tree that reads differently after execution, or a second evaluation that differs, where the
     # statement contains an aggregate applied to `*` as an analytic function, is the dynamic face of the
-    # static site analytic_function.go:Analyze:fn.Args[0] (F8): report it under that one signature
+    # static site analytic_function.go:Analyze:fn.Args[0] (F8, fixed in 02f8662): should that site ever
+    # reappear in the facts, its dynamic failures are reported under the same signature
     f8 = "astwrite:analytic_function.go:Analyze:fn.Args[0]"
     confirmed = set()
     star = re.compile(r"\(\*\)\s+OVER", re.I)
